@@ -14,7 +14,7 @@ META = {
     "engine": "A (exhaustive input enumeration)",
     "rule": "a case = one ordered generating set of one stabilizer state (or one labelled graph); non-trivial = the state is "
             "entangled or has a negative generator; distinct = distinct generating sets / graphs",
-    "bounds": {"quick": "all presentations of all states n<=3 (6 + 360 + 181440); all graphs n<=5",
+    "bounds": {"quick": "all presentations of all states n<=3 (6 + 360 + 181440); all 36720 states n=4 in one presentation; all graphs n<=5",
                "thorough": "+ all 36720 states n=4 in canonical presentation with every single row addition; all graphs n<=6"},
     "assumptions": ["R1 gate table for H,P,P_dag,X,Y,Z,CNOT,CZ"],
 }
@@ -33,10 +33,13 @@ def shards(tier):
         step = 512
         for a in range(0, ng, step):
             out.append({"kind": "graphs", "n": n, "lo": a, "hi": min(ng, a + step)})
-    if tier == "thorough":
-        for a in range(0, 36720, 720):
-            out.append({"kind": "s4", "lo": a, "hi": a + 720})
+    for a in range(0, 36720, 720):
+        out.append({"kind": "s4", "lo": a, "hi": a + 720, "additions": tier == "thorough"})
     return out
+
+
+def prepare(tier):
+    spaces.stabilizer_states(4)  # built once in the parent; the forked workers share it
 
 
 def apply_list(v, circ, reverse=False):
@@ -132,7 +135,7 @@ def run_shard(shard, tier, acc):
         for si in range(shard["lo"], min(shard["hi"], len(states))):
             s = states[si]
             check_presentation(acc, s, {"n": 4, "gens": s.strings()}, with_vector=False)
-            for i, j in itertools.permutations(range(4), 2):
+            for i, j in (itertools.permutations(range(4), 2) if shard.get("additions") else ()):
                 gens = list(s.gens)
                 gens[i] = P.mul(gens[i], gens[j])
                 g2 = P.StabGroup(4, gens)
